@@ -616,6 +616,10 @@ func c02Scenarios(ctx *vr.Ctx) []*c02Scn {
 		Producers: [][]c02Offer{{{ID: 1, Size: 1, Ctx: 1}}, {one(2), one(3)}}, Cancel: []int{1}, Shutdown: "end"})
 	l = append(l, &c02Scn{Name: "D3b-mem", Kind: "mem", Cap: 1, WFR: true, Consumers: 2, ConsumerPoint: false, Big: true,
 		Producers: [][]c02Offer{{one(1)}, {one(2)}, {one(3)}}, Shutdown: "end"})
+	// D3c: wait-for-result AND block-on-overflow with real overflow: the second producer waits for space that only the
+	// completion of the first one's request frees
+	l = append(l, &c02Scn{Name: "D3c-mem", Kind: "mem", Cap: 1, Block: true, WFR: true, Consumers: 1, ConsumerPoint: true,
+		Producers: [][]c02Offer{{one(1)}, {one(2)}}, Shutdown: "end"})
 	if !ctx.Quick() {
 		for _, kind := range []string{"mem", "pq"} {
 			l = append(l, &c02Scn{Name: "T1-" + kind, Kind: kind, Cap: 2, Block: true, Consumers: 2, ConsumerPoint: true, Big: true,
